@@ -1,4 +1,5 @@
 mod analyze;
+mod corpus;
 mod lcheck;
 
 use std::collections::HashMap;
@@ -45,6 +46,21 @@ fn main() {
             let prop = m.get("prop").expect("--prop");
             let count: usize = m.get("count").map(|s| s.parse().unwrap()).unwrap_or(1000);
             let v = lcheck::run(prop, seed, count, threads);
+            write_out(&m, &v);
+        }
+        "gen-corpus" => {
+            let profile = m.get("profile").cloned().unwrap_or_else(|| "mixed".into());
+            let count: usize = m.get("count").map(|s| s.parse().unwrap()).unwrap_or(100);
+            let shards: usize = m.get("shards").map(|s| s.parse().unwrap()).unwrap_or(16);
+            let max_states: usize = m.get("max-states").map(|s| s.parse().unwrap()).unwrap_or(250);
+            let dir = m.get("dir").expect("--dir");
+            let (defs, tried) = corpus::select(&profile, seed, count, max_states);
+            corpus::write(std::path::Path::new(dir), &profile, seed, &defs, shards, tried);
+            let mut shapes = vmon::graph::Shapes::default();
+            for d in &defs {
+                shapes.add(&d.graph.shapes());
+            }
+            let v = json!({"profile": profile, "seed": seed, "definitions": defs.len(), "tried": tried, "shards": shards, "shape_histogram": shapes.to_json()});
             write_out(&m, &v);
         }
         "replay" => {
